@@ -72,12 +72,17 @@ func lockOp(in ssa.Instruction) (string, int) {
 		return "", 0
 	}
 	recv, _ := CallArgs(ci.Common())
-	fa, ok := Strip(recv).(*ssa.FieldAddr)
-	if !ok {
-		return "", 0
+	name := ""
+	if g, isG := Strip(recv).(*ssa.Global); isG {
+		name = "global." + g.Name() // a package-level lock
+	} else {
+		fa, ok := Strip(recv).(*ssa.FieldAddr)
+		if !ok {
+			return "", 0
+		}
+		t, f := FieldAddrName(fa)
+		name = t + "." + f
 	}
-	t, f := FieldAddrName(fa)
-	name := t + "." + f
 	switch id.Name {
 	case "Lock":
 		return name, 1
@@ -243,16 +248,22 @@ func deferredLockOp(d *ssa.Defer) (string, int) {
 		return "", 0
 	}
 	recv, _ := CallArgs(d.Common())
-	fa, ok := Strip(recv).(*ssa.FieldAddr)
-	if !ok {
-		return "", 0
+	name := ""
+	if g, isG := Strip(recv).(*ssa.Global); isG {
+		name = "global." + g.Name()
+	} else {
+		fa, ok := Strip(recv).(*ssa.FieldAddr)
+		if !ok {
+			return "", 0
+		}
+		t, f := FieldAddrName(fa)
+		name = t + "." + f
 	}
-	t, f := FieldAddrName(fa)
 	switch id.Name {
 	case "Unlock":
-		return t + "." + f, -1
+		return name, -1
 	case "RUnlock":
-		return t + "." + f, -2
+		return name, -2
 	}
 	return "", 0
 }
